@@ -795,3 +795,41 @@ def r1b(cx):
                              'result >> n == operand): checked_shl only rejects counts >= 64, so bits shifted into or beyond the sign bit '
                              '(`1<<63`, `3<<62`) yield a wrapped value instead of an overflow error', loc=body.loc(t))
     cx.require(n >= 1, 'no i64::checked_shl in yash_arith::eval (left shift implemented differently: review)')
+
+
+# --- explanation addendum (generated catalogue in DESIGN.md reads RS.explanation)
+RS.explanation += ' Added later: the result of checked_shl passes the sign/shift-back filter (R1b); no `as i64` cast from a wider or unsigned type and no wrapping/overflowing operation on any integer type in yash-arith (R1); arithmetic reads variables through the quirk-aware accessor used by $x (R10).'
+
+
+@RS.rule('C03.R11', 'K-TABLE', 'only a variable term is assignable: every operator node of the evaluator (prefix, postfix, binary, ?:) yields a '
+         'value, never the unevaluated variable of one of its operands')
+def r11(cx):
+    F = cx.F
+    fn = EVAL + 'eval'
+    h = F.hir_of(fn)
+    cx.fn(fn)
+    ms = [m for m in H.matches_in(h['body']) if 'ast::Ast' in (m.get('sty') or '')]
+    cx.require(len(ms) >= 1, 'the match over Ast nodes in eval::eval was not found')
+    m = ms[0]
+    n = 0
+    for arm in m['arms']:
+        vs = H.pat_variants(arm['pat']) or []
+        names = sorted({v.split('::')[-1] for v in vs})
+        if not names or names == ['Term']:
+            continue
+        n += 1
+        body = arm['body']
+        # the value of the arm: tail expression of the block
+        tail = H.peel(body)
+        while tail.get('k') == 'block' and tail.get('e') is not None:
+            tail = H.peel(tail['e'])
+        passthrough = tail.get('k') == 'call' and (tail.get('def') or '') == fn
+        wraps = any(re.search(r'Term(::<[^>]*>)?::Value\b', str(x.get('def') or '') + ' ' + str(x.get('ga') or '')) for x in H.walk(tail))
+        cx.site('eval: %s => %s' % ('/'.join(names), 'the operand\'s own term (assignable)' if passthrough else ('Term::Value' if wraps else 'other')))
+        cx.cellcount(1)
+        if passthrough or not wraps:
+            cx.violation(fn, 'operator-yields-lvalue:%s' % '/'.join(names), 'the %s node returns the term of the selected operand unevaluated, so an '
+                         'assignment operator applied to it assigns the variable: `a=1 b=2; echo $((1 ? a : b = 9))` (in C: `(1 ? a : b) = 9`, '
+                         'not an lvalue) sets a=9 and prints 9 instead of reporting "assignment to a non-variable"' % '/'.join(names),
+                         loc='%s:%s' % (h['file'], tail.get('line') or h['line']))
+    cx.floor(n, 4, 'operator arms of eval::eval')
